@@ -45,6 +45,7 @@ type C12Expect struct {
 // key pool: Latin, Bangla, two names that differ only in letter case, and one
 // containing U+09DF (a letter whose NFC form is its decomposition)
 var c12Keys = []string{"alpha", "beta", "gamma", "delta", "\u0995", "\u09a8\u09be\u09ae", "ID", "id", "\u09ac\u09df\u09b8", FnLen,
+	"d1", "d\u09e7", // the same name with an ASCII and a Bangla digit: two different properties
 	"k2", "k10", "\u09a7\u09be\u09aa\u09e8", "\u09a7\u09be\u09aa\u09e7\u09e6"} // ... k2/k10 and ধাপ২/ধাপ১০: same stem, numeric suffixes of different length
 
 type c12Gen struct {
@@ -93,7 +94,7 @@ func (g *c12Gen) value() (string, C12Val) { return g.valueFor(0) }
 // valueFor draws a value to store into object target (0 = a new object): a
 // reference to an existing object is allowed when it cannot create a cycle.
 func (g *c12Gen) valueFor(target int) (string, C12Val) {
-	k := g.s.Int("valkind", 0, 16)
+	k := g.s.Int("valkind", 0, 17)
 	switch k {
 	case 12:
 		return "0", C12Val{Text: "0"}
@@ -107,6 +108,10 @@ func (g *c12Gen) valueFor(target int) (string, C12Val) {
 		g.nval++
 		t := fmt.Sprintf("%d%%d off %%s %%", g.nval)
 		return "\"" + t + "\"", C12Val{Text: t}
+	case 17:
+		// integers from the bitwise operators, beyond what a double holds exactly
+		bi := g.s.Int("bigint", 0, 2)
+		return []string{"((1 << 60) | 1)", "(~0)", "((1 << 53) | 1)"}[bi], C12Val{Text: []string{"1152921504606846977", "-1", "9007199254740993"}[bi]}
 	}
 	if k >= 10 {
 		if len(g.order) > 0 {
@@ -655,6 +660,8 @@ func c12Cyclic() []*Case {
 			[]string{"first", "last", "#2xalpha", "#2xbeta", "next", "prev"}},
 		{"shared-twice-in-array", fmt.Sprintf("%s sh = {gamma: 3};\nsh.me = sh;\n%s \"@P\";\n%s [sh, sh, {delta: sh}];\n%s sh.me.gamma;\n%s %s(sh);\n%s \"@DONE\";\n", KwVar, P, P, P, P, FnKeys, P),
 			[]string{"#3xgamma", "delta"}},
+		{"deep-1500", fmt.Sprintf("%s d = {leaf: 1};\n%s (%s i = 0; i < 1500; i = i + 1) { d = {child: d}; }\n%s \"@P\";\n%s d;\n%s d.child.child.child.child;\n%s %s(d);\n%s \"@DONE\";\n", KwVar, KwFor, KwVar, P, P, KwVar+" keep =", P, FnKeys, P),
+			[]string{"leaf", "#1500xchild"}},
 		{"repl-echo", "", nil},
 	}
 	var out []*Case
@@ -672,7 +679,7 @@ func c12Cyclic() []*Case {
 }
 
 // c12BigCase: one object with far more properties than any small internal table
-// (1200 in a literal, then every 7th deleted and 50 added), observed like any other.
+// (1200 in a literal, then 50 deleted and 50 others added, so the size stays the same), observed like any other.
 func c12BigCase() *Case {
 	g := &c12Gen{s: zeroSrc{}, heap: map[int]map[string]C12Val{}, vars: map[string]int{}, arrays: map[string][]int{}}
 	g.prelude()
@@ -687,8 +694,9 @@ func c12BigCase() *Case {
 	g.setVar("big", id, "{"+strings.Join(parts, ", ")+"}")
 	g.step = 1
 	g.observe("big-literal")
-	for i := 0; i < 1200; i += 7 {
-		k := fmt.Sprintf("q%04d", i)
+	// exactly as many deleted as added below: the number of properties does not change
+	for i := 0; i < 50; i++ {
+		k := fmt.Sprintf("q%04d", i*23)
 		g.add(fmt.Sprintf("%s(big, \"%s\");", FnDelete, k))
 		delete(g.heap[id], k)
 	}
